@@ -349,6 +349,24 @@ func checkC13(c *Ctx) {
 		ro.Check(okOrder, "callbacks.RegisterDefaultCallbacks", pl+": before-hooks < statement < after-hooks", regs[0].Call.Pos(), strings.Join(seq, " < "), "pipeline "+pl+" registers hooks on the wrong side of the statement: "+strings.Join(seq, " < "))
 	}
 
+	// update pipeline: the executor that points Statement.ReflectValue at the model precedes every hook executor
+	{
+		stmtT0 := p.Named(pkgGorm, "Statement")
+		rvF := p.Field(stmtT0, "ReflectValue")
+		setupIdx, firstHook := -1, -1
+		for _, r := range byPipe["update"] {
+			for _, st := range p.FieldStores(rvF) {
+				if rootSSA(st.Fn).Object() != nil && r.Fn.Obj != nil && rootSSA(st.Fn).Object() == r.Fn.Obj && setupIdx < 0 {
+					setupIdx = r.Index
+				}
+			}
+			if phaseOf(r) == 2 && firstHook < 0 {
+				firstHook = r.Index
+			}
+		}
+		ro.Check(setupIdx >= 0 && firstHook >= 0 && setupIdx < firstHook, "callbacks.RegisterDefaultCallbacks", "update: model reflect value set up before the before-hooks", regs[0].Call.Pos(), "hooks see the model being updated", "the update pipeline runs BeforeSave/BeforeUpdate before Statement.ReflectValue is pointed at the model: hooks are dispatched on the update values (e.g. a map) instead of the records")
+	}
+
 	// ---- C13.dispatch ----
 	rd := c.Rule("C13.dispatch", "callMethod: hooks get a session of the operation's handle; whole value first; exactly one call per element with CurDestIndex bookkeeping", 5)
 	c.Touch(callMethod)
